@@ -49,6 +49,39 @@ type Sched struct {
 	Trace    []int32 // schedule trace: task switches (task<<24 | yield), written by dispatcher only
 	SiteHits []int32 // sites at which a preemption landed
 	wg       sync.WaitGroup
+	noYield  int // > 0 while the running task is inside a sync.Once body (never park there)
+	// Abandoned: the running task did not reach a yield point or its end within the timeout —
+	// it is blocked on a lock held by a preempted task. The plan is abandoned; the process
+	// must exit (its goroutines cannot be recovered).
+	Abandoned bool
+}
+
+// NoYield marks entry to (+1) and exit from (-1) a region in which the running task must
+// not be preempted (sync.Once bodies: parking there with the Once's mutex held would block
+// every other task that needs the same initialisation).
+//
+//go:norace
+func NoYield(d int32) {
+	if s := active; s != nil {
+		s.noYield += int(d)
+	}
+}
+
+//go:norace
+func waitReadable(fd int, timeoutMs int) bool {
+	type pollfd struct {
+		fd      int32
+		events  int16
+		revents int16
+	}
+	p := pollfd{fd: int32(fd), events: 1}
+	for {
+		n, _, e := syscall.Syscall(syscall.SYS_POLL, uintptr(unsafe.Pointer(&p)), 1, uintptr(timeoutMs))
+		if e == syscall.EINTR {
+			continue
+		}
+		return n == 1
+	}
 }
 
 var active *Sched
@@ -125,6 +158,9 @@ func Yield(site int32) {
 	t := &s.tasks[s.current]
 	y := t.yields
 	t.yields++
+	if s.noYield > 0 {
+		return
+	}
 	for i := range s.pre {
 		p := &s.pre[i]
 		if !s.preUsed[i] && p.Task == s.current && p.Yield == y {
@@ -183,6 +219,10 @@ func (s *Sched) Run() {
 		s.Trace = append(s.Trace, int32(next)<<24|int32(s.tasks[next].yields&0xffffff))
 		s.tasks[next].started = true
 		rawWrite(s.tasks[next].wfd)
+		if !waitReadable(s.mainR, 8000) {
+			s.Abandoned = true
+			return
+		}
 		rawRead(s.mainR) // the task parked at a preemption or finished
 		cur := s.current
 		want := -1
